@@ -597,7 +597,7 @@ def corpus_file(path) -> list:
 
 
 def batch_corpus(lo, hi):
-    files = sorted(glob.glob('/repo/resources/models/**/*.xml', recursive=True))[lo:hi]
+    files = sorted(glob.glob(os.environ.get('FMV_REPO', '/repo') + '/resources/models/**/*.xml', recursive=True))[lo:hi]
     res = {'instances': 0, 'nontrivial': 0, 'violations': [], 'native_runs': 0}
     for p in files:
         res['instances'] += 1
@@ -674,7 +674,7 @@ def batches(tier, seed):
     b = []
     for fn in ('batch_fide', 'batch_fama', 'batch_glencoe', 'batch_afm'):
         b += [(fn, [N, lo, lo + step, seed + lo]) for lo in range(0, total, step)]
-    nfiles = len(glob.glob('/repo/resources/models/**/*.xml', recursive=True))
+    nfiles = len(glob.glob(os.environ.get('FMV_REPO', '/repo') + '/resources/models/**/*.xml', recursive=True))
     if tier == 'quick':
         b.append(('batch_corpus', [0, 60]))
     else:
